@@ -446,6 +446,21 @@ def p_rules(P, E):
                         r.violate(("P1", b.nid, "source subscribed outside connect"), "publish subscribes its source outside connect()", body=b, line=c.line)
     if n < 1:
         r.error("P1: no subscribe in impl Publish")
+    # P8: what connect() hands back IS the subscription of the source (whose is_subscribed / unsubscribe are the relay observer's own);
+    # a handle built by hand (Subscription::new over some cell) reports what its author thought of, not what the observer knows
+    cb = P.body(pub + "::connect")
+    if cb is None:
+        r.error("anchor missing: Publish::connect")
+    else:
+        subs = [c for c in cb.calls if atom(c) == "subscribe"]
+        ret_ok = bool(subs) and all(t[0] == "ret" and t[1] in [c.bb for c in subs] and not t[2] for t in cb.local_prov(0))
+        made = [c for c in cb.calls if atom(c) == "subscription_new"]
+        r.instance(("P8", cb.nid), True, "returns the source subscription: %s; Subscription::new calls: %d" % (ret_ok, len(made)))
+        if not ret_ok or made:
+            r.violate(("P8", cb.nid, "connect does not return the source subscription itself"),
+                      "Publish::connect returns a Subscription that is not the one source.subscribe(..) returned: its is_subscribed() / "
+                      "unsubscribe() no longer reflect the relay observer (still `subscribed` after the source's own terminal, or again after a "
+                      "reconnect)", body=cb)
     for root in ("operators::ref_count::RefCount::new", "operators::replay::Replay::new"):
         rb = P.body(root)
         if rb is None:
